@@ -257,9 +257,15 @@ void classify_crash(const std::string& err, int wstatus, std::string& key, std::
       pos = eol == std::string::npos ? err.size() : eol;
       if (line.find("unifex") == std::string::npos) continue;
       size_t in = line.find(" in ");
-      if (in == std::string::npos) continue;
-      size_t fe = line.find(" /", in + 4);
-      std::string fn = strip_templates(line.substr(in + 4, fe == std::string::npos ? std::string::npos : fe - in - 4));
+      size_t skip = 4;
+      if (in == std::string::npos) {
+        // ThreadSanitizer frames: "    #0 function /path/file:line:col (module+0x...)"
+        in = line.find(' ', line.find('#'));
+        skip = 1;
+        if (in == std::string::npos) continue;
+      }
+      size_t fe = line.find(" /", in + skip);
+      std::string fn = strip_templates(line.substr(in + skip, fe == std::string::npos ? std::string::npos : fe - in - skip));
       size_t ns = fn.find("unifex::");
       if (ns != std::string::npos) fn = fn.substr(ns + 8);
       if (fn.empty() || fn == last || fn.find("unifex") != std::string::npos && fn.size() > 80) continue;
